@@ -2775,18 +2775,22 @@ def insert_index(a: A, ctx):
         m_ev.used = True
         c = m_ev.node
         kws = {k.arg: k.value for k in c.keywords}
-        anchor_arg = kws.get('before', c.args[1] if len(c.args) > 1 else None)
+
+        def given(x):
+            return None if x is None or const_of(x) is None else x
+        anchor_arg = given(kws.get('before', c.args[1] if len(c.args) > 1 else None))
+        after_arg = given(kws.get('after', c.args[2] if len(c.args) > 2 else None))
         if not (c.args and a.is_param(f, resolve(f, c.args[0], m_ev.cn)[0], 2)):
             o.refute(f, c, c, f"{what}: `{src(c)}` moves something else than the inserted task")
             return
         if anchor_arg is None:
-            if 'after' in kws or len(c.args) > 2:
+            if after_arg is not None:
                 o.refute(f, c, c, f"{what}: the task is moved AFTER the element found at the index; insert(i) must put it before that "
                                   f"element (at index i)")
             else:
                 o.undecided(f, c, c, f"{what}: move call without an anchor")
             return
-        if 'after' in kws or len(c.args) > 2:
+        if after_arg is not None:
             o.undecided(f, c, c, f"{what}: move call with both anchors")
             return
         if not cfg.can_reach(at_ev.cn, m_ev.cn) or cfg.can_reach(m_ev.cn, at_ev.cn):
